@@ -239,7 +239,7 @@ contract('AdbDevice._open',
          real=dev('_open'),
          params={'self': 'obj:AdbDevice', 'destination': 'bytes', 'transport_timeout_s': 'opt[real]', 'read_timeout_s': 'real', 'timeout_s': 'opt[real]'},
          returns='obj:AdbInfo',
-         props=['C14', 'C04', 'C01', 'C11', 'C12'],
+         props=['C14', 'C04', 'C01', 'C11', 'C12', 'C06'],
          requires=['self._local_id >= 0 and self._local_id < 2**32', 'G.rpos >= 0 and G.rpos <= len(G.dev)', NOLOCK],
          modifies=OPEN_MOD,
          ghost_exit=[('G.spos', 'store(G.spos, self._local_id, G.sgot[self._local_id])'),
